@@ -1034,13 +1034,32 @@ fn run(ctx: &Ctx) -> ShardOut {
     let ldocs = layout_documents(thorough);
     out.count("documents_in_enumeration", if ctx.shard == 0 { (docs.len() + ldocs.len() + xdocs.len()) as u64 } else { 0 });
     let mut done = 0u64;
-    for spec in docs.iter().chain(ldocs.iter()).filter(|s| keep(s)) {
-        idx += 1;
-        if !ctx.mine(idx) {
+    // Execution order: the groups (document size class; layout family) advance PROPORTIONALLY, so that a
+    // wall-clock cap on a loaded machine thins every group evenly instead of cutting the documents
+    // around the last chunk boundaries and the whole layout family. Which shard owns which document is
+    // unchanged (position in the enumeration).
+    let specs: Vec<_> = docs.iter().chain(ldocs.iter()).filter(|s| keep(s)).collect();
+    let group_of = |s: &&Spec| -> (bool, usize) { (s.layout != Layout::Plain, s.n / 500) };
+    let mut gsize: std::collections::HashMap<(bool, usize), u64> = std::collections::HashMap::new();
+    for s in &specs {
+        *gsize.entry(group_of(s)).or_insert(0) += 1;
+    }
+    let mut gseen: std::collections::HashMap<(bool, usize), u64> = std::collections::HashMap::new();
+    let mut order: Vec<(u64, u64, &Spec)> = Vec::new();
+    for (k, s) in specs.iter().enumerate() {
+        let g = group_of(s);
+        let seen = gseen.entry(g).or_insert(0);
+        order.push(((*seen * 1_000_000) / gsize[&g], idx + 1 + k as u64, *s));
+        *seen += 1;
+    }
+    idx += specs.len() as u64;
+    order.sort_by_key(|(frac, pos, _)| (*frac, *pos));
+    for (_, pos, spec) in order {
+        if !ctx.mine(pos) {
             continue;
         }
         if ctx.expired() {
-            out.capped.push(format!("wall-clock cap: shard {} completed {} of its documents (enumeration order: RDF/XML batch documents, then sizes ascending, then the layout family)", ctx.shard, done));
+            out.capped.push(format!("wall-clock cap: shard {} completed {} of its documents (after the RDF/XML batch documents the size classes and the layout family advance proportionally: every group was thinned evenly)", ctx.shard, done));
             break;
         }
         let spec = *spec;
